@@ -499,7 +499,12 @@ func scenarioDeposedTail(o *common.Opts, idx int, st *stats, tag string) string 
 	w := newWorkload(c)
 	w.rate = 200
 	w.retry = 5 * time.Millisecond // retired clients are replaced at once: the cut-off leader keeps getting proposals
-	w.simple = true
+	// C08 watches the ledger commands; C07 wants the shared registers, counters and collections read and written on
+	// both sides of the cut (a read answered by the cut-off leader must not miss a write acknowledged by the others)
+	w.simple = tag == "c08"
+	if tag == "c07" {
+		w.readers = 1
+	}
 	wg := w.run(2, o.Seed*104729+int64(idx))
 	time.Sleep(time.Duration(1200+r.Intn(800)) * time.Millisecond)
 	lead := currentLeader(c)
@@ -508,11 +513,22 @@ func scenarioDeposedTail(o *common.Opts, idx int, st *stats, tag string) string 
 		wg.Wait()
 		return "cluster did not become writable"
 	}
+	w.pnMu.Lock()
+	before := w.perNode[lead]
+	w.pnMu.Unlock()
 	c.Partition([]int{lead})
 	st.nemesis++
 	st.kinds["isolate-leader-under-load"]++
+	defer func() {
+		if os.Getenv("VERIF_DEBUG") != "" {
+			fmt.Printf("DEBUG deposed-tail %s-%d: node %d acknowledged %d operations while cut off\n", tag, idx, lead, st.cutoffAcks)
+		}
+	}()
 	// long enough for the other two to elect (1 s election timeout, randomised) and to acknowledge writes
 	time.Sleep(time.Duration(4500+r.Intn(2000)) * time.Millisecond)
+	w.pnMu.Lock()
+	st.cutoffAcks += int(w.perNode[lead] - before)
+	w.pnMu.Unlock()
 	c.Heal()
 	st.nemesis++
 	// the old leader learns the new term and replaces its tail
